@@ -652,7 +652,7 @@ package rosmar
 //@   loop 1002 body [C07:wwx.macro-keeps-body]    iter("call:event.expandXattrMacros") == 1 && val == nil ==> callrecv("event.expandXattrMacros").value == (if r.present then r.value else NULL)
 //@   ensures [C01,C07:wwx.err-unchanged]  err != nil ==> db == old(db)
 //@   ensures [C08:wwx.err-noevent]        err != nil ==> lenlist(posted) == 0
-//@   ensures [C05:wwx.deletebody-refuses-only-a-tombstone] opts.deleteBody && opts.requireExistingDoc && r.present && !isnull(r.value) && count("call:event.expandXattrMacros") == 0 ==> !ismissing(err)
+//@   ensures [C05:wwx.deletebody-refuses-only-a-tombstone] opts.deleteBody && opts.requireExistingDoc && r.present && !isnull(r.value) && count("call:event.expandXattrMacros") == 0 ==> !wrapsmissing(err)
 //@   ensures [C05,C06:wwx.docinv]         DocInv(r2)
 //@   ensures [C11:wwx.frame]              forall o: DocId :: o != mkId(c.id, key) ==> docAt(o) == old(docAt(o))
 //@   ensures [C11:wwx.scoped]             stmtsScoped(c.id)
